@@ -54,6 +54,7 @@ Clauses(e) ==
                       \o Chk(TokOK(tbl, n, e.line), e, "C09.protocol-rendered-name-not-for-this-number")
                       \o Chk(e.nr = TRUE /\ ~e.has_port => e.line.isnum, e, "C09.protocol-numeric-switch")
                       \o Chk(e.re_exc = "" /\ e.re_number = n, e, "C09.protocol-rendering-not-accepted-back")
+                      \o Chk(e.ace_exc = "" /\ e.ace_number = n, e, "C09.protocol-rendering-not-accepted-back-in-an-entry")
                       \o Chk(e.pname = "" \/ (Has(tbl, e.pname) /\ NumOf(tbl, e.pname) = n), e, "C09.protocol-name-attribute"))
     [] e.act = "Split" ->
          LET tbl == PortTable(e.plat, e.vmajor, e.proto) IN
